@@ -27,7 +27,7 @@ const kfStaleResult = "KF-C07-stale-cached-result"
 var c07bKinds = []string{"send", "send", "send", "send-self", "send-broke", "double-spend", "stake-new", "edit-stake-up", "pause", "unstake", "subsidy", "bad-sig", "create-order"}
 
 var badKinds = []string{"hdr-state-root", "hdr-tx-root", "hdr-validator-root", "hdr-next-validator-root", "hdr-total-txs", "hdr-num-txs", "hdr-last-block-hash", "hdr-proposer",
-	"hdr-height", "hdr-network", "failing-tx", "failing-tx", "failing-tx", "dup-tx", "drop-tx", "results-swap", "results-swap", "lastqc-sig", "lastqc-payload", "lastqc-partial",
+	"hdr-height", "hdr-network", "failing-tx", "failing-tx", "failing-tx", "dup-tx", "drop-tx", "results-swap", "results-swap", "lastqc-sig", "lastqc-payload", "lastqc-partial", "lastqc-alt+state-root", "lastqc-alt+state-root", "lastqc-alt+failing-tx",
 	"cert-below-threshold", "cert-sig-garbled", "cert-extra-bits", "cert-wrong-phase"}
 
 func mm(m any) []byte {
@@ -136,6 +136,42 @@ func (x *world7) bad(p *nodesim.Proposal, good *lib.QuorumCertificate, vs lib.Va
 		}
 		// (only a validator compares the results with its own computation; a committing node trusts the +2/3 that signed them)
 		lateWrites, validateOnly = true, true
+	case "lastqc-alt+state-root", "lastqc-alt+failing-tx":
+		// the embedded last certificate is a VALID ALTERNATIVE +2/3 certificate of the last height (another signer subset);
+		// the block has a second, real defect. The node indexes the alternative before it executes and rejects the block:
+		// after the reset it must serve the committed version of that certificate again
+		if hd.Height <= 1 {
+			hd.StateRoot, kind, lateWrites = flip(hd.StateRoot), "hdr-state-root", true
+			break
+		}
+		last := hd.LastQuorumCertificate
+		lvs, e := x.a.Committee(last.Header.RootHeight)
+		if e != nil {
+			x.fatalf("committee: %v", e)
+		}
+		// all members but the weakest, if that still is a quorum
+		n := len(lvs.ValidatorSet.ValidatorSet)
+		var alt []int
+		for i := 0; i < n-1; i++ {
+			alt = append(alt, i)
+		}
+		if _, thr, sp := nodesim.Power(lvs, alt); n < 2 || sp.Cmp(thr) < 0 {
+			hd.StateRoot, kind, lateWrites = flip(hd.StateRoot), "hdr-state-root", true
+			break
+		}
+		last.Signature = nil
+		sig, err := nodesim.Aggregate(last.SignBytes(), lvs, x.ring, alt)
+		if err != nil {
+			x.fatalf("aggregate: %v", err)
+		}
+		last.Signature = sig
+		if kind == "lastqc-alt+state-root" {
+			hd.StateRoot = flip(hd.StateRoot)
+		} else {
+			bad := x.w.GenTx(t, hd.Height, []string{"send-broke"})[0]
+			blk.Transactions = append(blk.Transactions, bad.Bytes)
+		}
+		lateWrites = true
 	case "lastqc-sig", "lastqc-payload", "lastqc-partial":
 		if hd.Height <= 1 {
 			hd.StateRoot, kind, lateWrites = flip(hd.StateRoot), "hdr-state-root", true
